@@ -26,6 +26,17 @@ GeneratorExit in the caller, a new suspension is RuntimeError("coroutine ignored
 A loop is unfolded along each path until the path suspends or exits; a path that would go round a loop twice
 without suspending is rejected.
 
+Normal forms (round 5), so that behaviour-preserving rewrites produce the same Lean text or text the same proofs close:
+  * constant string expressions - literals, `+`, f-strings, `%`, `str.format`, conditional expressions and locals bound
+    to them - are evaluated to the set of strings they can denote; a RuntimeError message must denote one message atom;
+  * `x = a if c else b` / `return a if c else b` is the if statement; `not`, `and`, `or` in a test are control flow
+    (`if a and b` = nested ifs), a test whose value is a known literal on the path selects its branch;
+  * `while <test>` as well as `while True`, `break`, `continue`; a flag that holds the same literal on every path into
+    a suspension point is a property of the point, not a stored local (two different literals: rejected);
+  * `send = coro.send` (throw, close): a local alias of a bound method of the driven coroutine is that primitive;
+  * a private synchronous helper that is just `return <expression>` may be used inside a test;
+  * a local that is a function of the parameters is an alias only if it is assigned exactly once in the function.
+
 Roles of parameters come from their annotations (Coroutine → the driven coroutine, Callable+Tuple → the
 first `callable(*args)`, the `(type, value, traceback)` triple of the throw protocol → one `PyThrow`), so a
 renamed parameter still translates.  RuntimeError messages are mapped to the model's tags by key phrases.
@@ -42,6 +53,7 @@ frames follow PEP 380/479 as encoded in `Exec.do_await`/`PyExc.leave`; CPython's
 from __future__ import annotations
 
 import ast
+import re
 from pathlib import Path
 
 
@@ -363,6 +375,14 @@ class Exec:
             if isinstance(v, ast.Constant):
                 return k.next(loc)
             return self.effect(v, loc, k, lambda e, loc2: k.next(loc2))
+        if isinstance(s, (ast.Return, ast.Assign)) and isinstance(self.uncast(s.value), ast.IfExp) and \
+                self.pure_or_none(self.uncast(s.value).body, loc, "str") is None:
+            # `x = a if c else b` / `return a if c else b`  ==  the if statement with two assignments / returns
+            ie = self.uncast(s.value)
+
+            def arm(v):
+                return ast.Return(value=v) if isinstance(s, ast.Return) else ast.Assign(targets=s.targets, value=v)
+            return self.stmt(ast.If(test=ie.test, body=[arm(ie.body)], orelse=[arm(ie.orelse)]), loc, k)
         if isinstance(s, ast.Return):
             if s.value is None:
                 return k.ret(("0", "val"), loc)
@@ -378,7 +398,9 @@ class Exec:
                 if e[1] in ("bool", "val", "int"):
                     loc = dict(loc)
                     loc[tgt.id] = e
-                    self.derived[tgt.id] = e
+                    if self.assigned_once(tgt.id):
+                        # a function of the parameters: re-derived after a suspension instead of being stored
+                        self.derived[tgt.id] = e
                     return k.next(loc)
             return self.effect(s.value, loc, k, lambda e, loc2: self.assign(tgt, e, loc2, k))
         if isinstance(s, ast.If):
@@ -386,9 +408,10 @@ class Exec:
                              lambda loc2: self.block(s.body, 0, loc2, k),
                              lambda loc2: self.block(s.orelse, 0, loc2, k))
         if isinstance(s, ast.While):
-            if not (isinstance(s.test, ast.Constant) and s.test.value is True) or s.orelse:
-                self.bad("only `while True:` loops are supported")
+            if s.orelse:
+                self.bad("while … else")
             key = id(s)
+            always = isinstance(s.test, ast.Constant) and s.test.value is True
 
             def again(loc2):
                 n = self.loop_rounds.get(key, 0)
@@ -396,7 +419,9 @@ class Exec:
                     self.bad("a path goes round a loop twice without suspending")
                 self.loop_rounds[key] = n + 1
                 try:
-                    return self.block(s.body, 0, loc2, kl)
+                    if always:
+                        return self.block(s.body, 0, loc2, kl)
+                    return self.cond(s.test, loc2, lambda l3: self.block(s.body, 0, l3, kl), k.next)
                 finally:
                     self.loop_rounds[key] = n
             kl = k.with_(next=lambda loc2: again(loc2), cont=lambda loc2: again(loc2), brk=k.next)
@@ -419,6 +444,28 @@ class Exec:
             return self.try_(s, loc, k)
         self.bad(f"statement {type(s).__name__}")
 
+    @staticmethod
+    def uncast(e):
+        while isinstance(e, ast.Call) and isinstance(e.func, ast.Name) and e.func.id == "cast" and len(e.args) == 2:
+            e = e.args[1]
+        return e
+
+    def pure_or_none(self, e, loc, ty):
+        try:
+            t = self.pure(e, loc)
+        except Unsupported:
+            return None
+        return t if t[1] == ty else None
+
+    def assigned_once(self, name):
+        n = 0
+        for node in ast.walk(self.f.node):
+            if isinstance(node, ast.Name) and isinstance(node.ctx, ast.Store) and node.id == name:
+                n += 1
+            if isinstance(node, ast.ExceptHandler) and node.name == name:
+                n += 1
+        return n == 1
+
     def param_only(self, e, loc):
         """the expression reads nothing but parameters (and locals derived from them)"""
         params = set()
@@ -438,7 +485,7 @@ class Exec:
     def assign(self, tgt, e, loc, k):
         if isinstance(tgt, ast.Name):
             loc = dict(loc)
-            if e[1] in ("str", "finalizer", "hooks", "coro"):
+            if e[1] in ("str", "finalizer", "hooks", "coro", "coromethod"):
                 loc[tgt.id] = e
                 return k.next(loc)
             loc[tgt.id] = (tgt.id, e[1])
@@ -526,13 +573,51 @@ class Exec:
 
     # ---------------------------------------------------------------------------------------------
     # conditions (pure)
+    def expand_helper(self, e):
+        """`self._helper(args)` where the private synchronous helper is just `return <expression>`:
+        the expression with the arguments substituted (None if `e` is not such a call)"""
+        if not (isinstance(e, ast.Call) and isinstance(e.func, ast.Attribute) and self.is_self(e.func.value)):
+            return None
+        node = self.tr.funcs.get((self.f.cls, e.func.attr))
+        if node is None:
+            return None
+        body = list(node.body)
+        if body and isinstance(body[0], ast.Expr) and isinstance(body[0].value, ast.Constant):
+            body = body[1:]
+        if isinstance(node, ast.AsyncFunctionDef) or len(body) != 1 or not isinstance(body[0], ast.Return) \
+                or body[0].value is None or any(isinstance(x, (ast.Yield, ast.YieldFrom, ast.Await)) for x in ast.walk(node)):
+            return None
+        names = [a.arg for a in node.args.args][1:]
+        if e.keywords or node.args.defaults or node.args.kwonlyargs or node.args.vararg or len(names) != len(e.args):
+            self.bad(f"helper {node.name}: only plain positional parameters")
+        sub = dict(zip(names, e.args))
+
+        class Sub(ast.NodeTransformer):
+            def visit_Name(self, n):
+                return sub.get(n.id, n) if isinstance(n.ctx, ast.Load) else n
+        import copy
+        return Sub().visit(copy.deepcopy(body[0].value))
+
     def cond(self, test, loc, then, els):
         """if test: then else: els — with the knowledge gained about request-typed values"""
+        x = self.expand_helper(test)
+        if x is not None:
+            return self.cond(x, loc, then, els)
         if isinstance(test, ast.BoolOp) and isinstance(test.op, ast.And) and len(test.values) >= 2:
             first, restv = test.values[0], test.values[1:]
             rest_test = restv[0] if len(restv) == 1 else ast.BoolOp(op=ast.And(), values=restv)
             return self.cond(first, loc, lambda l2: self.cond(rest_test, l2, then, els), els)
+        if isinstance(test, ast.BoolOp) and isinstance(test.op, ast.Or) and len(test.values) >= 2:
+            first, restv = test.values[0], test.values[1:]
+            rest_test = restv[0] if len(restv) == 1 else ast.BoolOp(op=ast.Or(), values=restv)
+            return self.cond(first, loc, then, lambda l2: self.cond(rest_test, l2, then, els))
+        if isinstance(test, ast.UnaryOp) and isinstance(test.op, ast.Not):
+            return self.cond(test.operand, loc, els, then)
         c, loc_true = self.test(test, loc)
+        if c == "true = true":          # a flag whose value is known on this path (`while running:`)
+            return then(loc_true)
+        if c == "false = true":
+            return els(loc)
         return ite(c, then(loc_true), els(loc))
 
     def test(self, e, loc):
@@ -581,12 +666,36 @@ class Exec:
             a, b = self.pure(e.body, loc), self.pure(e.orelse, loc)
             if a[1] == "str" and b[1] == "str":
                 return ("", "str", a[2] + b[2])
+            if a[1] == b[1] and a[1] in ("val", "int", "bool"):
+                c = self.as_bool(self.pure(e.test, loc))
+                return (f"(if {c} = true then {a[0]} else {b[0]})", a[1])
             self.bad("conditional expression")
         if isinstance(e, ast.BinOp) and isinstance(e.op, ast.Add):
             a, b = self.pure(e.left, loc), self.pure(e.right, loc)
             if a[1] == "str" and b[1] == "str":
-                return ("", "str", a[2] + b[2])
+                return ("", "str", self.str_concat(a[2], b[2]))
             self.bad("addition")
+        if isinstance(e, ast.JoinedStr):
+            # f-string over string constants / conditional constants: the same message atom(s) as `+`
+            alts = [""]
+            for v in e.values:
+                if isinstance(v, ast.Constant) and isinstance(v.value, str):
+                    part = [v.value]
+                elif isinstance(v, ast.FormattedValue) and v.format_spec is None and v.conversion in (-1, 115):
+                    t = self.pure(v.value, loc)
+                    if t[1] != "str":
+                        self.bad("f-string field that is not a constant string")
+                    part = t[2]
+                else:
+                    self.bad("f-string field")
+                alts = self.str_concat(alts, part)
+            return ("", "str", alts)
+        if isinstance(e, ast.BinOp) and isinstance(e.op, ast.Mod):
+            a = self.pure(e.left, loc)
+            if a[1] == "str":
+                args = e.right.elts if isinstance(e.right, ast.Tuple) else [e.right]
+                return ("", "str", self.str_fill(a[2], [self.pure(x, loc) for x in args], "%s"))
+            self.bad("modulo")
         if isinstance(e, ast.Compare) and len(e.ops) == 1:
             op, rhs = e.ops[0], e.comparators[0]
             if isinstance(rhs, ast.Constant) and rhs.value is None and isinstance(op, (ast.Is, ast.IsNot, ast.Eq, ast.NotEq)):
@@ -629,11 +738,18 @@ class Exec:
                 return (f"cfg.{e.attr}", "hookfn" if e.attr == "firstiter" else "finalizer")
             if base[1] == "coro" and e.attr == "cr_frame":
                 return ("cs", "frame")
+            if base[1] == "coro" and e.attr in ("send", "throw", "close"):
+                return ("", "coromethod", e.attr)       # `send = coro.send`: a bound method of the driven coroutine
             self.bad(f"attribute {ast.unparse(e)}")
         if isinstance(e, ast.Call):
             fn = e.func
             if isinstance(fn, ast.Name) and fn.id == "cast" and len(e.args) == 2:
                 return self.pure(e.args[1], loc)
+            if isinstance(fn, ast.Attribute) and fn.attr == "format" and not e.keywords and \
+                    not isinstance(fn.value, ast.Name):
+                base = self.pure(fn.value, loc)
+                if base[1] == "str":
+                    return ("", "str", self.str_fill(base[2], [self.pure(x, loc) for x in e.args], "{}"))
             if isinstance(fn, ast.Name) and fn.id in ("coro_is_finished", "coro_is_new") and len(e.args) == 1:
                 a = self.pure(e.args[0], loc)
                 if a[1] != "coro":
@@ -646,6 +762,30 @@ class Exec:
                     and fn.attr == "get_asyncgen_hooks" and not e.args:
                 return ("cfg", "hooks")
         self.bad(f"expression {ast.unparse(e)[:80]}")
+
+    @staticmethod
+    def str_concat(xs, ys):
+        """all concatenations of the alternatives (a conditional constant has several)"""
+        out = [x + y for x in xs for y in ys]
+        if len(out) > 16:
+            raise Unsupported("string expression with too many alternatives")
+        return out
+
+    def str_fill(self, templates, args, hole):
+        out = templates
+        for a in args:
+            if a[1] != "str":
+                self.bad("string formatting with a non-constant argument")
+            nxt = []
+            for t in out:
+                if hole not in t:
+                    self.bad("string formatting: more arguments than fields")
+                i = t.index(hole)
+                nxt += [t[:i] + alt + t[i + len(hole):] for alt in a[2]]
+            out = nxt
+        if any(hole in t for t in out):
+            self.bad("string formatting: fewer arguments than fields")
+        return out
 
     def self_attr(self, a):
         cls = self.f.cls
@@ -694,11 +834,15 @@ class Exec:
                 msg = self.pure(e.args[0], loc)
                 if msg[1] != "str":
                     self.bad("RuntimeError message must be built from string constants")
-                text = " ".join(msg[2])
-                tags = [tag for phrase, tag in RT_MESSAGES if phrase in text]
+                tags = set()
+                for text in msg[2]:
+                    t = [tag for phrase, tag in RT_MESSAGES if phrase in text]
+                    if len(t) != 1:
+                        self.bad(f"RuntimeError message {text!r} does not identify one of the model's errors")
+                    tags.add(t[0])
                 if len(tags) != 1:
-                    self.bad(f"RuntimeError message {text!r} does not identify one of the model's errors")
-                return (f"(PyExc.exc (.runtime {tags[0]}))", "pyexc")
+                    self.bad(f"RuntimeError message alternatives {msg[2]!r} name different errors")
+                return (f"(PyExc.exc (.runtime {tags.pop()}))", "pyexc")
             if n == "OOBData" and len(e.args) == 1:
                 return (f"(PyExc.exc (.oobData {self.as_val(self.pure(e.args[0], loc))}))", "pyexc")
             if n == "StopAsyncIteration" and not e.args:
@@ -769,7 +913,18 @@ class Exec:
             if isinstance(fn, ast.Name) and loc.get(fn.id, ("", ""))[1] == "finalizer" and len(e.args) == 1 \
                     and self.is_self(e.args[0]):
                 return let("evs", "evs ++ [HookEv.finalizer]", cont(("()", "unit"), loc))
+            if isinstance(fn, ast.Name) and loc.get(fn.id, ("", ""))[1] == "coromethod":
+                # a local alias of coro.send / coro.throw / coro.close
+                e2 = ast.Call(func=ast.Attribute(value=ast.Name(id=self.coro_name(loc), ctx=ast.Load()),
+                                                 attr=loc[fn.id][2], ctx=ast.Load()), args=e.args, keywords=e.keywords)
+                return self.effect(e2, loc, k, cont)
         return cont(self.pure(e, loc), loc)
+
+    def coro_name(self, loc):
+        for n, v in loc.items():
+            if v[1] == "coro":
+                return n
+        self.bad("no coroutine parameter in scope")
 
     @staticmethod
     def raises(node):
@@ -837,8 +992,10 @@ class Exec:
         pid = len(f.points)
         params = {n for n, _ in f.lean_params()}
         fields = [(n, t) for n, t in self.live_fields(loc) if n not in params]
+        consts = {n: v for n, v in loc.items() if n not in params and len(v) == 2 and v[1] in ("bool", "int")
+                  and re.fullmatch(r"true|false|\(-?\d+\)", v[0])}
         p = dict(id=f"T{pid}q", fields=fields + ([("inner", inner)] if inner else []), own=[n for n, _ in fields],
-                 key=key or "", seq=pid)
+                 key=key or "", seq=pid, consts=consts)
         f.points.append(p)
         self.point_of[id(node)] = p
         return p
@@ -853,9 +1010,12 @@ class Exec:
             base[n] = (n, ty)
         # static (non-runtime) bindings survive
         for n, v in loc.items():
-            if v[1] in ("str", "coro", "hooks", "monitor") and n not in base:
+            if v[1] in ("str", "coro", "hooks", "monitor", "coromethod") and n not in base:
                 base[n] = v
         for n, v in self.derived.items():
+            base.setdefault(n, v)
+        # locals that hold the same literal on every path into this suspension point (checked in susp_leaf)
+        for n, v in p["consts"].items():
             base.setdefault(n, v)
         return base
 
@@ -866,6 +1026,9 @@ class Exec:
             if n not in loc:
                 self.bad(f"local {n} is not bound on a path that reaches the same suspension point")
             args.append(loc[n][0])
+        for n, v in p["consts"].items():
+            if loc.get(n) != v:
+                self.bad(f"local {n} holds different constants on two paths into one suspension point")
         if inner is not None:
             args.append(inner)
         a = " ".join(args)
